@@ -1135,6 +1135,28 @@ class Walker:
                 outs.extend(self._iterate_generator(it, s, n, n.target, n.body, n.orelse))
                 continue
             items = self.literal_items(it, s)
+            if items is None and is_call(it, "ext:itertools.chain") and it[2] and not it[3] and not n.orelse and not any(isinstance(x, ast.Break) for x in ast.walk(n)):
+                # for x in chain(A, B): body  ==  for x in A: body; for x in B: body
+                cur = [(s, "fall", None)]
+                for k_i, part in enumerate(it[2]):
+                    nxt = []
+                    for s1, k1, p1 in cur:
+                        if k1 != "fall":
+                            nxt.append((s1, k1, p1))
+                            continue
+                        s1 = s1.copy()
+                        nm = "$chain_%d" % k_i
+                        s1.env[nm] = part
+                        sub = ast.For(target=n.target, iter=ast.Name(id=nm, ctx=ast.Load()), body=n.body, orelse=[])
+                        ast.copy_location(sub, n)
+                        ast.copy_location(sub.iter, n.iter)
+                        sub.col_offset = n.col_offset + 1000 * (k_i + 1)  # a loop identity of its own
+                        for s2, k2, p2 in self.s_For(sub, s1):
+                            s2.env.pop(nm, None)
+                            nxt.append((s2, k2, p2))
+                    cur = nxt
+                outs.extend(cur)
+                continue
             if items is not None:
                 outs.extend(self._unrolled(n, s, items))
             else:
@@ -1186,6 +1208,10 @@ class Walker:
             if all(c is not None for c in cols):
                 n = min(len(c) for c in cols)
                 return [("lit", "tuple", tuple(c[i] for c in cols), None) for i in range(n)]
+        if is_call(it, "ext:itertools.chain") and it[2] and not it[3]:
+            cols = [self.literal_items(a, s) for a in it[2]]
+            if all(c is not None for c in cols):
+                return [x for c in cols for x in c]
         if is_call(it, "builtin:enumerate") and len(it[2]) == 1 and not it[3]:
             col = self.literal_items(it[2][0], s)
             if col is not None:
@@ -2019,7 +2045,7 @@ class Walker:
             if k != "val":
                 outs.append((s, k, it))
                 continue
-            if isinstance(it, tuple) and len(it) == 3 and it[0] == "gen":
+            if (isinstance(it, tuple) and len(it) == 3 and it[0] == "gen") or (is_call(it, "ext:itertools.chain") and it[2] and not it[3] and self.literal_items(it, s) is None):
                 outs.extend(self._comp_over_generator(e, kind, g, s, it))
                 continue
             items = self.literal_items(it, s)
@@ -2120,7 +2146,17 @@ class Walker:
                 continue
             s0 = s0.copy()
             s0.env[acc] = t0
-            for s2, kk, p2 in self._iterate_generator(gen, s0, e, g.target, [body], []):
+            if gen[0] == "gen":
+                results = self._iterate_generator(gen, s0, e, g.target, [body], [])
+            else:
+                # a chain of iterables: consecutive loops filling the same accumulator
+                s0.env["$chain_it"] = gen
+                loop = ast.For(target=g.target, iter=ast.Name(id="$chain_it", ctx=ast.Load()), body=[body], orelse=[])
+                ast.copy_location(loop, e)
+                ast.copy_location(loop.iter, e)
+                results = self.s_For(loop, s0)
+            for s2, kk, p2 in results:
+                s2.env.pop("$chain_it", None)
                 if kk == "fall":
                     val = s2.env.get(acc, t0)
                     s2.env.pop(acc, None)
